@@ -140,6 +140,13 @@ pub fn run_script(script: &str) -> String {
                         }
                     }
                 }
+                ["abort"] => {
+                    // cancel a pending close()/close_with_error(): the future is dropped and with it the handle
+                    if let Slot::Busy(t) = &conn {
+                        t.abort();
+                        conn = Slot::None;
+                    }
+                }
                 ["drop"] => {
                     if let Slot::Have(_) = conn {
                         conn = Slot::None;
@@ -272,6 +279,7 @@ pub fn gen_script(r: &mut Rng, max_len: u64) -> String {
             4..=6 => "close",
             7 => "closee",
             8 => "drop",
+            12 => "abort",
             9 => "eof",
             10..=11 => "pz",
             _ => *r.pick(&ALPHABET),
